@@ -207,16 +207,16 @@ def sessions_for(tier, rng):
         sessions.append(s)
         kinds[k] = kinds.get(k, 0) + 1
     quick = tier == "quick"
-    for _ in range(1500 if quick else 20000):
+    for _ in range(4000 if quick else 30000):
         add("authentic+corrupt", s_authentic(rng))
-    for _ in range(1500 if quick else 20000):
+    for _ in range(4000 if quick else 30000):
         add("library-built", s_libbuilt(rng))
-    for _ in range(250 if quick else 3000):
+    for _ in range(600 if quick else 5000):
         add("slots", s_slots(rng))
     for n in ((198, 200, 202) if quick else (1, 50, 199, 200, 201, 202, 202, 202)):
         add("slots-capacity", s_slots(rng, n))
     # 4 compat x usage-flag sets
-    flagsets = range(0, 512, 7) if quick else range(512)
+    flagsets = range(0, 512, 3) if quick else range(512)
     for compat in range(4):
         for flags in flagsets:
             add("config-sweep", (s_authentic if (flags + compat) % 2 else s_libbuilt)(rng, compat, flags))
